@@ -612,7 +612,6 @@ func runC18(r *Report) {
 		r.OK("C18/same-acceptance", n, "", "")
 		nPairs++
 		ta, tb := wireTable(ja), wireTable(jb)
-		var diffs []string
 		keys := map[string]bool{}
 		for k := range ta {
 			keys[k] = true
@@ -620,21 +619,18 @@ func runC18(r *Report) {
 		for k := range tb {
 			keys[k] = true
 		}
+		// one obligation per differing row, so that a recorded finding names the row and
+		// the two observed forms, and any other difference in the same program is reported
+		nDiff := 0
 		for k := range keys {
 			nRows++
 			if ta[k] != tb[k] {
-				diffs = append(diffs, fmt.Sprintf("%s: ref form [%s] vs inline form [%s]", k, ta[k], tb[k]))
+				nDiff++
+				r.Violation("C18/table-equality", n+":"+k, "", fmt.Sprintf("row differs between the $ref form and its inline copy: ref form [%s] vs inline form [%s]", ta[k], tb[k]))
 			}
 		}
-		sort.Strings(diffs)
-		if len(diffs) == 0 {
+		if nDiff == 0 {
 			r.OK("C18/table-equality", n, "", fmt.Sprintf("%d rows equal", len(keys)))
-		} else {
-			show := diffs
-			if len(show) > 4 {
-				show = show[:4]
-			}
-			r.Violation("C18/table-equality", n, "", fmt.Sprintf("%d rows differ between the $ref form and its inline copy: %s", len(diffs), strings.Join(show, " ;; ")))
 		}
 	}
 	s3.coverageSummary(r)
